@@ -1,5 +1,6 @@
 from checks import server_family
 from checks import c04
+from checks import c01
 
 
 def c08(ctx):
@@ -19,6 +20,7 @@ def c07(ctx):
 
 
 CHECKS = {
+    "C01": c01.run,
     "C04": c04.run,
     "C02": c02,
     "C06": c06,
